@@ -11,6 +11,7 @@ import Gv.Proofs.ClustalOutcome
 import Gv.Proofs.NexusOutcome
 import Gv.Proofs.NexusNoHang
 import Gv.Proofs.ClustalNoHang
+import Gv.Proofs.PhylipNoHang
 import Gv.Proofs.PartitionOutcome
 /-!
 C03 — parsers terminate on every input with an error or a well-formed result.
@@ -515,6 +516,43 @@ theorem clustal_outcome_fixed_partial (o : POpts) (bs : List Byte) :
   have h3 := clustal_no_hang true o bs
   cases hp : Clustal.parse true o bs with
   | ok a => rw [hp] at h1; exact h1
+  | error => trivial
+  | exit => trivial
+  | panic => exact absurd hp h2
+  | hang => exact absurd hp h3
+
+/-- Phylip (strict and relaxed) without the allocation from the header count never hangs: the fuel of every
+loop of the model is proved sufficient (measure: remaining bytes + 1 for a pushed-back token other than
+EOF; the block loop needs the fact that the first block yields at least one row) -/
+theorem phylip_no_hang (o : POpts) (bs : List Byte) : Phylip.parse false o bs ≠ .hang := by
+  unfold Phylip.parse
+  cases h : Phylip.parseOne false o { inp := bs } with
+  | ok v =>
+    obtain ⟨r, s'⟩ := v
+    cases r with
+    | aln a => simp [Phylip.toOutcome]
+    | eos => simp [Phylip.toOutcome]
+    | slow => exact absurd h (Gv.Proofs.PhylipNoHang.parseOne_not_slow o _ s')
+  | error e =>
+    cases e <;> simp [Phylip.toOutcome]
+    exact Gv.Proofs.PhylipNoHang.parseOne_nh false o _ h
+
+/-- **Phylip (strict and relaxed) with the repairs of commit 74f5867**, all ASCII byte strings and options: the
+full C03 outcome statement — an explicit error, an exit with a message (lone `\r`), the end-of-stream
+marker, or a well-formed alignment; never a panic, never a hang. -/
+theorem phylip_outcome_fixed (o : POpts) (bs : List Byte) :
+    match Phylip.parse false o bs with
+    | .ok (some a) => Spec.Fmt.wellFormed a.length a.rows = true
+    | .ok none | .error | .exit => True
+    | .panic | .hang => False := by
+  have h1 := phylip_outcome_partial false o bs
+  have h2 := phylip_no_panic o bs
+  have h3 := phylip_no_hang o bs
+  cases hp : Phylip.parse false o bs with
+  | ok r =>
+    cases r with
+    | some a => rw [hp] at h1; exact h1
+    | none => trivial
   | error => trivial
   | exit => trivial
   | panic => exact absurd hp h2
